@@ -4,4 +4,6 @@ MaxLen == 2
 EnvLen == 1
 ExtraSeqs == {}
 EnvSeqs == {}
+DirTok == 1
+Interesting == {3}
 ====
